@@ -222,6 +222,28 @@ func init() {
 			return true
 		})
 
+		// ---- the password-less account: the test LoginQuery / InitCurrentUser apply to the STORED id ----------
+		pp := l.load("ptt")
+		guestTest := func(fn string) string {
+			fd := acctFunc(pp, "", fn)
+			found := ""
+			ast.Inspect(fd.Body, func(nd ast.Node) bool {
+				is, ok := nd.(*ast.IfStmt)
+				if !ok || found != "" {
+					return true
+				}
+				txt := types.ExprString(is.Cond)
+				if strings.Contains(strings.ToLower(txt), "guest") {
+					found = txt
+				}
+				return true
+			})
+			if found == "" {
+				fatal("ptt.%s: no condition that mentions the guest account", fn)
+			}
+			return found
+		}
+
 		idOff, idSz := fieldOff("UserID")
 		pwOff, pwSz := fieldOff("PasswdHash")
 		emOff, emSz := fieldOff("Email")
@@ -250,6 +272,9 @@ func init() {
 		lf.raw(fmt.Sprintf("def lenGuard : List (Nat × Nat) := [%s]\n", strings.Join(guard, ", ")))
 		lf.raw(fmt.Sprintf("def firstCharTest : String := %q\n", tests[0]))
 		lf.raw(fmt.Sprintf("def loopCharTest : String := %q\n", tests[1]))
+		lf.raw("\n/- ptt/mbbsd.go, ptt/passwd.go: the condition under which an account is treated as the password-less guest -/\n")
+		lf.raw(fmt.Sprintf("def loginGuestTest : String := %q\n", guestTest("LoginQuery")))
+		lf.raw(fmt.Sprintf("def initGuestTest : String := %q\n", guestTest("InitCurrentUser")))
 		lf.raw("\n/- cmbbs/passwd.go: the field named in unsafe.Offsetof(ptttype.USEREC_RAW.<Field>) -/\n")
 		lf.raw(fmt.Sprintf("def queryPasswdField : String := %q\n", acctOffsetofField(pb, "PasswdQueryPasswd")))
 		lf.raw(fmt.Sprintf("def updatePasswdField : String := %q\n", acctOffsetofField(pb, "PasswdUpdatePasswd")))
